@@ -58,11 +58,13 @@ fn alphabet(s0: u64, len: u64) -> Vec<SOp> {
         SOp::Ack(1, s0),           // other file
         SOp::Cancel,
         SOp::Advance(1),
+        SOp::Advance(0),           // restart of the CURRENT file: offsets zeroed all the same
         SOp::Resume(0, 0),         // accepted, frees nothing, stages a resume
         SOp::Resume(0, s0),        // accepted at the trailing edge, frees the window
         SOp::Resume(0, 1),         // mid-chunk: rejected
         SOp::Resume(1, 0),         // wrong file: rejected
         SOp::Sent(s0 + 2),
+        SOp::Sent(2 * s0),         // another thread records a whole further window as sent while the waiter is parked
     ]
 }
 
@@ -148,7 +150,7 @@ pub fn run(a: &Args) -> i32 {
     let mut distinct = std::collections::HashSet::new();
     let mut lost = 0u64; // schedules in which the 10 s watchdog expired with the condition true
     for run in 0..n {
-        if lost >= 3 {
+        if lost >= a.u64("max-lost", 3) {
             break; // enough evidence of a lost wake-up; do not spend 10 s on each further schedule
         }
         let sys_prog = sys.get(run);
@@ -294,7 +296,7 @@ pub fn run(a: &Args) -> i32 {
                 was_ready = true;
                 // the wait condition holds: the waiter must come back; be generous (10 s)
                 let t = Instant::now();
-                while t.elapsed() < Duration::from_secs(10) {
+                while t.elapsed() < Duration::from_millis(a.u64("watchdog-ms", 10_000)) {
                     if done.load(Ordering::SeqCst) {
                         returned = true;
                         break;
